@@ -50,16 +50,29 @@ theorem exF_args : PutArgs exF exTime :=
 /-- a history of volume-directory operations addressed by simple names on the formatted volume: the hypotheses of
 `prodos_history_refines` and of its corollaries are satisfiable -/
 def exOps : List VOp :=
-  [.put exF exTime, .lock (str "a"), .rename (str "a") (str "b"), .delete (str "b"), .unlock (str "c.d"),
+  [.put exF exTime, .mkdir (str "d") exTime, .lock (str "a"), .delete (str "d"), .delete (str "b"), .unlock (str "c.d"),
    .retype (str "c.d") (some 4) (some 0), .retype (str "c.d") none (some 0)]
 
 theorem exOps_root : ∀ op ∈ exOps, op.Root (volName (hdrOf (formatted 10).raw)) := by
   intro op hop
   simp only [exOps, List.mem_cons, List.not_mem_nil, or_false] at hop
-  rcases hop with rfl | rfl | rfl | rfl | rfl | rfl | rfl <;>
+  rcases hop with rfl | rfl | rfl | rfl | rfl | rfl | rfl | rfl <;>
     exact ⟨rootPath_simple _ _ (by decide) (by decide) (by decide),
-      fun p t a h => by cases h <;> omega,
-      fun f t h => by cases h <;> exact exF_args⟩
+      fun p t a h => (by cases h <;> omega),
+      fun f t h => (by cases h <;> exact exF_args),
+      fun p t h => (by cases h <;> exact ⟨by decide, by decide⟩)⟩
+
+/-- no `rename` in the history -/
+theorem exOps_ren : RenFiles (volName (hdrOf (formatted 10).raw)) (formatted 10) exOps :=
+  renFiles_of_no_rename _ exOps _ (by
+    intro op hop p n
+    simp only [exOps, List.mem_cons, List.not_mem_nil, or_false] at hop
+    rcases hop with rfl | rfl | rfl | rfl | rfl | rfl | rfl | rfl <;> intro h <;> cases h)
+
+/-- the hypotheses of `prodos_mkdir_refines` are met -/
+example : Refines (formatted 10) (mkdir (str "d") exTime (formatted 10)) (.mkdir (upper (upper (str "d")))) :=
+  prodos_mkdir_refines formatted10_sinv (str "d") exTime (upper (str "d")) ⟨by decide, by decide⟩
+    (normalizePath_simple _ _ (by decide) (by decide) (by decide) (volName_len _)) (by decide)
 
 /-- the hypotheses of `put_refines'` are met -/
 example : Refines (formatted 10) (put exF exTime repaired (formatted 10))
@@ -69,17 +82,20 @@ example : Refines (formatted 10) (put exF exTime repaired (formatted 10))
 
 example : validFrom prodosParams (volOf (formatted 10).raw) (trace (volName (hdrOf (formatted 10).raw)) (formatted 10) exOps) ∧
     SInv (finalDisk (formatted 10) exOps) :=
-  ⟨(prodos_history_refines exOps _ formatted10_sinv exOps_root).1, (prodos_history_refines exOps _ formatted10_sinv exOps_root).2.1⟩
+  ⟨(prodos_history_refines exOps _ formatted10_sinv exOps_root exOps_ren).1, (prodos_history_refines exOps _ formatted10_sinv exOps_root exOps_ren).2.1⟩
 
-example : Inv (finalDisk (formatted 10) exOps).raw := (prodos_states_well_formed exOps _ formatted10_sinv exOps_root).2
+example : Inv (finalDisk (formatted 10) exOps).raw := (prodos_states_well_formed exOps _ formatted10_sinv exOps_root exOps_ren).2
 
 example (q : Bytes) : q ∈ (volOf (finalDisk (formatted 10) exOps).raw).paths ↔
     q ∈ foldPaths (volOf (formatted 10).raw).paths (trace (volName (hdrOf (formatted 10).raw)) (formatted 10) exOps) :=
-  (prodos_listing_is_history_fold exOps _ formatted10_sinv exOps_root q).1
+  (prodos_listing_is_history_fold exOps _ formatted10_sinv exOps_root exOps_ren q).1
 
 example : Refines (formatted 10) (Fs.Prodos.rename (str "a") (str "b") (formatted 10)) (.rename (upper (upper (str "a"))) (upper (str "b"))) :=
   prodos_rename_refines formatted10_sinv (str "a") (upper (str "a")) (str "b")
     (normalizePath_simple _ _ (by decide) (by decide) (by decide) (volName_len _)) (by decide)
     (notVol_simple _ _ (by decide) (by decide))
+    (by
+      have : (volOf (formatted 10).raw).lookup (upper (upper (str "a"))) = none := by decide +kernel
+      intro f hf; rw [this] at hf; cases hf)
 
 end A2Verif.FsProdos
